@@ -88,7 +88,7 @@ OfsComplete(g, nm) == (\E t \in McnkOfsTags(nm) : HasTag(g.subs, t)) => g.f[nm] 
 GroupSizesOk(fo)  == LET ks == McnksOf(fo.top) IN
                      /\ \A gi \in 1..Len(fo.groups) : \A q \in 1..Len(fo.groups[gi].idxs) :
                             LET ix == fo.groups[gi].idxs[q] IN ix \in 1..Len(ks) /\ ks[ix].size = fo.groups[gi].size
-                     /\ \A ix \in 1..Len(ks) : \E gi \in 1..Len(fo.groups) : \E q \in 1..Len(fo.groups[gi].idxs) : fo.groups[gi].idxs[q] = ix
+                     /\ UNION {{fo.groups[gi].idxs[q] : q \in 1..Len(fo.groups[gi].idxs)} : gi \in 1..Len(fo.groups)} = 1..Len(ks)
 VersionRule(fo, ver) == \A j \in 1..Len(fo.top) : MayCarry(ver, fo.top[j].tag)
 
 \* ============================================================================ Part 2: the code
